@@ -5,6 +5,7 @@ from pyvc.report import Report
 from pyvc import runtime
 from pyvc.solve import cvc5_check
 from .common import run_rt
+from . import wiring
 
 
 REV_LEMMAS = {
@@ -21,6 +22,9 @@ def run(tier, seed):
                      'list and a visited set, with the loop invariant  out . SPEC(rev(stack), visited) = SPEC([root], {}); the spec functions ARE '
                      'the statement (pre-order, left to right, first occurrence; enter/finish pairs for every occurrence, expansion once).')
     res = run_rt(rep, rt_walk.WALK, tier)
+    # the walkers go by _fields: for the operator nodes of the run-time they must list operand / operator / operand in input order
+    wiring.operator_node_classes(rep, tier)
+    wiring.class_compile_obligations(rep, tier)
     # list-reversal lemmas used (instantiated) by the invariants: discharged with cvc5's native seq.rev
     for name, smt in REV_LEMMAS.items():
         r, t = cvc5_check('(set-logic ALL)' + smt, 20000)
